@@ -226,9 +226,10 @@ class PlotCollection:
 
     def export(self, file_path: str, confirm_overwrite: bool = True) -> None:
         base, ext = os.path.splitext(file_path)
-        if not ext:
-            # matplotlib appends its default format to paths without extension,
-            # make sure the overwrite check looks at the file actually written
+        if ext in ("", "."):
+            # matplotlib appends its default format to paths without extension
+            # (also to paths that end with a dot), make sure the overwrite
+            # check looks at the file actually written
             ext = "." + mpl.rcParams["savefig.format"]
         if ext == ".pdf" and not SETTINGS.plot_split:
             if confirm_overwrite and not user.check_and_confirm_overwrite(
